@@ -112,3 +112,10 @@ Definition v1_step_flat (acc : option (option string)) (m : option string) : opt
       end
   end.
 Definition v1_addl_flat (ms : list (option string)) : option (option string) := fold_left v1_step_flat ms (Some None).
+
+(** * oneOf / anyOf of the members: result.OneOf = append(s1.OneOf, s2.OneOf...) (and the same for anyOf), folded over
+      the members.  [alts_merge_dropping] is the variant that builds the list only when the next member has alternatives of
+      its own (and so forgets what was collected when it has none). *)
+Definition alts_merge (ms : list (list string)) : list string := fold_left (fun acc m => (acc ++ m)%list) ms [].
+Definition alts_merge_dropping (ms : list (list string)) : list string :=
+  fold_left (fun acc m => match m with [] => [] | _ => (acc ++ m)%list end) ms [].
